@@ -30,8 +30,10 @@ def mk_obs(rng, f, th):
         kw = {"angle": float(rng.choice([30.0, 45.0, -77.0, 360.0]))}
     elif name == "momf":
         kw = {"n": int(rng.integers(0, 3))}
-    elif name == "split":
+    elif name in ("split", "stats_limits"):
         kw = {"fmin": float(f.min() + 0.1 * (f.max() - f.min())), "fmax": float(f.min() + 0.8 * (f.max() - f.min()))}
+        if name == "stats_limits" and rng.random() < 0.5:
+            kw.update(dmin=45.0, dmax=300.0)
     elif name == "ptm3":
         kw = {"parts": int(rng.integers(1, 4))}
     elif name == "ptm4":
@@ -54,6 +56,10 @@ def run(ctx):
     try:
         for i, rng in ctx.cases("histories", ctx.n(420, 12000)):
             one(ctx, rng, xr, wavespectra, attrs, cl, samples)
+        # per-object / per-argument memoisation: the observed call itself, then one in-place edit, then the observation
+        for i, rng in ctx.cases("memo", ctx.n(260, 6000)):
+            edit = str(rng.choice([s_ for s_ in STEPS if s_.startswith("edit_")]))
+            one(ctx, rng, xr, wavespectra, attrs, cl, samples, forced=["same_as_observed", edit])
     finally:
         cl.close()
 
@@ -62,7 +68,7 @@ def attrs_fingerprint(attrs):
     return (len(attrs.ATTRS), tuple(sorted(k for k in attrs.ATTRS if isinstance(attrs.ATTRS.get(k), dict) and len(attrs.ATTRS.get(k)) == 0)))
 
 
-def one(ctx, rng, xr, wavespectra, attrs, cl, samples):
+def one(ctx, rng, xr, wavespectra, attrs, cl, samples, forced=None):
     rec = ctx.rec
     nf = int(rng.choice([4, 6, 9]))
     nd = int(rng.choice([4, 8, 12]))
@@ -76,17 +82,23 @@ def one(ctx, rng, xr, wavespectra, attrs, cl, samples):
     nsteps = int(rng.integers(1, 9))
     trace = []
     a0 = attrs_fingerprint(attrs)
-    for s in range(nsteps):
-        step = str(rng.choice(STEPS))
+    # the observed operation (with its arguments) is fixed first, so that the history can contain the very same call
+    # before later edits (results memoised per object / per argument tuple)
+    obs = mk_obs(rng, f, th)
+    for s in range(nsteps if forced is None else len(forced)):
+        step = str(rng.choice(STEPS + ["same_as_observed", "same_as_observed"])) if forced is None else forced[s]
         trace.append(step)
         try:
-            do_step(step, rng, xr, wavespectra, attrs, obj, f, th, lnames, lsizes, samples)
+            if step == "same_as_observed":
+                r_ = hist.observe(obj, obs)
+                del r_
+            else:
+                do_step(step, rng, xr, wavespectra, attrs, obj, f, th, lnames, lsizes, samples)
         except Exception as e:
             trace[-1] = step + "!" + type(e).__name__
     a1 = attrs_fingerprint(attrs)
     if a1 != a0:
         rec.note("global_attribute_table_changed_during_history")
-    obs = mk_obs(rng, np.asarray(obj["freq"].values if "freq" in obj.coords else f), th)
     key = "%s|%s|after=%s" % ("Dataset" if use_ds else "DataArray", obs["name"], "+".join(sorted(set(t.split("!")[0] for t in trace)))[:120])
     st = hist.state_of(obj)
     try:
